@@ -288,7 +288,7 @@ pub fn gen_lib<R: Rng>(rng: &mut R, big: bool) -> ScriptedCase {
                 convergence: Some(1e9),
                 builder_history: if rng.gen_bool(0.3) { Some(rng.gen::<u32>() as u64) } else { None },
             },
-            via_api: rng.gen_bool(0.4),
+            via_api: rng.gen_bool(0.4), aliases: vec![],
         };
     }
     let vals: &[u64] = if big { &[0, 1, 2, 3, 7, 999, 1000, 1001, 2500, 100_000] } else { &[0, 1, 2, 3, 7, 999, 1000, 1001, 2500] };
@@ -321,7 +321,7 @@ pub fn gen_lib<R: Rng>(rng: &mut R, big: bool) -> ScriptedCase {
             convergence: conv,
             builder_history: if rng.gen_bool(0.3) { Some(rng.gen::<u32>() as u64) } else { None },
         },
-        via_api: rng.gen_bool(0.4),
+        via_api: rng.gen_bool(0.4), aliases: vec![],
     }
 }
 
